@@ -19,6 +19,9 @@ type anode struct {
 	Kids []anode `json:"kids,omitempty"` // S: elements; C: Kids[0] = expression
 	Kw   string  `json:"kw,omitempty"`
 	Pos  int     `json:"pos,omitempty"` // index into the forms vector (nested positions only, 1-based; 0 = root)
+	// Clos: the nested Stack carries closures of its own (unmarshal, presentation, validity, equality):
+	// they are honoured, or not, in the same way whatever form the Stack is stored in
+	Clos bool `json:"closures,omitempty"`
 }
 
 var stackForms = []string{"native", "alias", "aliasS", "ptr-alias", "ptr-aliasS", "ptr-native"}
@@ -67,6 +70,14 @@ func (n anode) build(forms []int, hist ...bool) any {
 			vals = append(vals, k.build(forms, h))
 		}
 		fill(s, vals, fillMode(n.String()))
+		if n.Clos {
+			s.SetUnmarshaler(func(...any) ([]any, error) { return []any{"CUSTOM-UNMARSHAL"}, nil })
+			s.SetValidityPolicy(func(...any) error { return nil })
+			s.SetEqualityPolicy(func(a, b any) error { return nil })
+			if n.K != "BASIC" {
+				s.SetPresentationPolicy(func(...any) string { return "CUSTOM-STRING" })
+			}
+		}
 		f := "native"
 		if n.Pos > 0 {
 			f = stackForms[forms[n.Pos-1]%len(stackForms)]
@@ -373,6 +384,23 @@ func c12Trees(c *Ctx) []anode {
 		S("AND", nl, S("LIST", nl, lf("a"), nl, nl, lf("b")), nl, C("k", S("LIST", lf("p"), nl, lf("q")))),
 		S("OR", C("k", lf("v")), C("k", lf("v")), S("AND", lf(2.5), lf(true))),
 		S("AND", C("outer", C("inner", lf("v"))), lf("z")),
+	}
+	// nested Stacks with closures of their own
+	Sc := func(k string, kids ...anode) anode { return anode{T: "S", K: k, Kids: kids, Clos: true} }
+	trees = append(trees, S("AND", lf("a"), Sc("OR", lf("x"), lf("y")), lf("b")), S("LIST", C("k", Sc("AND", lf("p"))), Sc("NOT", lf("q"))))
+	// the long regime: wide parents (8, 9, 20 elements) with the nested position first, in the middle, last
+	for _, w := range []int{8, 9, 20} {
+		for _, at := range []int{0, w / 2, w - 1} {
+			kids := make([]anode, w)
+			for i := range kids {
+				kids[i] = lf(fmt.Sprintf("w%d", i))
+			}
+			kids[at] = S("OR", lf("in"))
+			if at == w/2 {
+				kids[w-1] = C("wk", S("LIST", lf("e")))
+			}
+			trees = append(trees, anode{T: "S", K: kindNames[(w+at)%5], Kids: kids})
+		}
 	}
 	if !c.Quick() {
 		trees = append(trees,
